@@ -2,7 +2,7 @@ package main
 
 import (
 	"fmt"
-	"go/ast"
+	"go/constant"
 	"go/token"
 	"go/types"
 	"sort"
@@ -39,34 +39,85 @@ var rpcArgPos = map[string][2]int{
 	"Call": {0, 1}, "CallContext": {1, 2}, "Go": {0, 1}, "GoContext": {1, 2}, "MultiCall": {1, 2}, "MultiGo": {1, 2},
 }
 
-// serviceTypes maps a service name to its RPCAPI type, read from the type
-// switch in RPCServiceID.
+// serviceTypes maps a service name to its RPCAPI type. The source of truth
+// is the registration: every `server.RegisterName(name, rcvr)` outside the
+// test support package, with name a constant or the result of a repository
+// function evaluated for the receiver's dynamic type (RPCServiceID, however
+// it is written: type switch, assertion chain, ...).
 func (c *Ctx) serviceTypes() map[string]*types.Named {
-	out := map[string]*types.Named{}
-	fd, pkg := c.P.FuncDecl("", "RPCServiceID")
-	if fd == nil {
-		return out
+	if c.svcTypes != nil {
+		return c.svcTypes
 	}
-	ast.Inspect(fd.Body, func(n ast.Node) bool {
-		cc, ok := n.(*ast.CaseClause)
-		if !ok || len(cc.List) != 1 || len(cc.Body) != 1 {
-			return true
+	out := map[string]*types.Named{}
+	c.svcTypes = out
+	dynType := func(v ssa.Value) types.Type {
+		if mi, ok := v.(*ssa.MakeInterface); ok {
+			return mi.X.Type()
 		}
-		ret, ok := cc.Body[0].(*ast.ReturnStmt)
-		if !ok || len(ret.Results) != 1 {
-			return true
+		if t := stripLocal(v).Type(); !types.IsInterface(t) {
+			return t
 		}
-		name, ok := constStr(pkg, ret.Results[0])
-		if !ok || name == "" {
-			return true
+		return nil
+	}
+	c.P.RepoFuncs(func(f *ssa.Function) {
+		if isTestSupportFn(f) {
+			return
 		}
-		t := pkg.TypesInfo.TypeOf(cc.List[0])
-		if p, ok := t.(*types.Pointer); ok {
-			if nt, ok := p.Elem().(*types.Named); ok {
-				out[name] = nt
+		for _, ci := range callsIn(f) {
+			cc := ci.Common()
+			if !nameMatches(callName(cc), "go-libp2p-gorpc.Server).RegisterName") {
+				continue
+			}
+			args := callArgs(cc)
+			if len(args) < 2 {
+				continue
+			}
+			rt := dynType(args[len(args)-1])
+			pt, _ := rt.(*types.Pointer)
+			if pt == nil {
+				continue
+			}
+			nt, _ := pt.Elem().(*types.Named)
+			if nt == nil {
+				continue
+			}
+			nameV := args[len(args)-2]
+			if s, ok := constString(nameV); ok {
+				out[s] = nt
+				continue
+			}
+			call, _ := originCallLocal(nameV)
+			if call == nil {
+				continue
+			}
+			g := call.Common().StaticCallee()
+			if g == nil || len(g.Blocks) == 0 || len(call.Common().Args) != 1 || len(g.Params) != 1 {
+				continue
+			}
+			at := dynType(call.Common().Args[0])
+			if at == nil {
+				continue
+			}
+			ssaEvalHook = func(v ssa.Value, _ func(ssa.Value) (constant.Value, bool)) (constant.Value, bool) {
+				ex, ok := v.(*ssa.Extract)
+				if !ok || ex.Index != 1 {
+					return nil, false
+				}
+				ta, ok := ex.Tuple.(*ssa.TypeAssert)
+				if !ok || !ta.CommaOk || stripLocal(ta.X) != ssa.Value(g.Params[0]) {
+					return nil, false
+				}
+				if it, isI := ta.AssertedType.Underlying().(*types.Interface); isI {
+					return constant.MakeBool(types.Implements(at, it)), true
+				}
+				return constant.MakeBool(types.Identical(ta.AssertedType, at)), true
+			}
+			_, val, ok := ssaEval(g, func(ssa.Value) (constant.Value, bool) { return nil, false })
+			ssaEvalHook = nil
+			if ok && val != nil && val.Kind() == constant.String && constant.StringVal(val) != "" {
+				out[constant.StringVal(val)] = nt
 			}
 		}
-		return true
 	})
 	return out
 }
